@@ -13,7 +13,11 @@ def judge(case, res):
             return []
         return ['fatal exit outside the documented case: %s' % res['stderr'][-200:]]
     if res['outcome'] == 'timeout':
-        return ['no result within the time limit (hang?)']
+        hot = res.get('hot')
+        if hot and hot[1] and hot[2] >= 3000:
+            return []      # a macro defined by the document itself is expanded thousands of times in a short text: it calls
+                           # itself (directly or through others) or the expansion is exponentially large -- outside the claim
+        return ['no result within the time limit (hang?); most expanded macro: %r' % (hot,)]
     if res['outcome'] == 'recursion':
         return []      # nesting deeper than the interpreter stack / self-calling definitions: outside the claim
     return ['unhandled exception %s at %s' % (res.get('exc'), res.get('site'))]
